@@ -111,7 +111,7 @@ void pool_deadlock() {
 void pool_switch(int, int) { if (tasks_running > 0) switch_in_run = true; }
 void on_steps() { internal_error("scheduler step limit reached"); }
 
-enum PK { START_TASK = 0, START_FUNCTOR, CLEAR, DRAIN, STOP, GETTERS, OWNER_YIELD, ADVANCE_TIME, UPDATE };
+enum PK { START_TASK = 0, START_FUNCTOR, CLEAR, DRAIN, STOP, GETTERS, OWNER_YIELD, ADVANCE_TIME, UPDATE, START_BURST };
 
 void run_pool(const Case &c) {
     maxThreads = 1 + (unsigned)hget(c, 0, 0) % 6;
@@ -122,7 +122,7 @@ void run_pool(const Case &c) {
     counter = 0;
     int functor_runs_expected = 0;
     vsched::on_deadlock = pool_deadlock; vsched::on_switch = pool_switch; vsched::on_step_limit = on_steps;
-    tasks.reserve(c.ops.size() + 4);
+    tasks.reserve(c.ops.size() * 130 + 8);   // (records must not move: task bodies hold references)
     vsched::set_mode_pct(hget(c, 2, 0) == 1); if (hget(c, 2, 0) == 1) label("pct_schedule");
     vsched::begin(c.sched.data(), c.sched.size());
     {
@@ -169,6 +169,16 @@ void run_pool(const Case &c) {
                 phase = IDLE; ++since_stop;
                 after_op("start()");
                 count_ops();
+                break;
+            }
+            case START_BURST: {
+                // many submissions back to back: backlogs and long uninterrupted dequeue sequences (thresholds in queue storage)
+                static const int sizes[6] = {5, 20, 34, 40, 70, 130};
+                int n = sizes[(unsigned)o.b % 6];
+                phase = IN_START; stopped = false; note("owner starts a burst of %d tasks", n);
+                for (int k = 0; k < n; ++k) { int id = (int)tasks.size(); tasks.push_back(TaskRec{id}); tasks.back().epoch = epoch; pool->start(new Task(id, (o.c & 1) && k % 8 == 0 ? 1 : 0)); }
+                phase = IDLE; since_stop += n;
+                after_op("start()"); label(n > 64 ? "burst_over_64" : n > 32 ? "burst_over_32" : "burst"); count_ops();
                 break;
             }
             case CLEAR:
